@@ -163,25 +163,79 @@ def add_decoy(rng, case, kind, atol, stretch=None):
     return True
 
 
+def odd_cell(rng, pname, atol):
+    """a triclinic cell that is NOT in the standard orientation (a along x, b in the xy plane): upper-triangular, or a
+    LAMMPS-style cell turned by 10-35 degrees about a skew axis"""
+    d = fl.diam(fl.pattern_json(pname)["pos"])
+    while True:
+        base = fl.make_cell(rng, rng.choice(["tri+", "tri-"]), max(7.0, 2.2 * d + 3))
+        kind = rng.choice(["upper", "turned", "turned"])
+        if kind == "upper":
+            cell = [[base[0][0], base[1][0], base[2][0]], [0, base[1][1], base[2][1]], [0, 0, base[2][2]]]
+        else:
+            v = [rng.randint(-1, 1) for _ in range(3)]
+            if not any(v):
+                continue
+            R = fl.rotmat((v[0], v[1], v[2], rng.randint(4, 9)))
+            cell = [fl.matvec(R, row) for row in base]
+        if wide_enough(cell, [pname], atol):
+            return cell, kind
+
+
+def ase_case(rng, atol, pname=None):
+    """a periodic structure meant to arrive through ase.Atoms / Atoms.from_ase_atoms: oddly oriented triclinic cell, copies
+    across faces, ordinary decoys, and ghost copies that exist only under a mis-read cell"""
+    pname = pname or rng.choice([n for n in fl.PATTERNS if len(fl.PATTERNS[n][0]) >= 2 and n != "int3"])
+    cell, kind = odd_cell(rng, pname, atol)
+    case = empty_case(pname, cell, kind)
+    plant(rng, case, atol, ncopies=rng.randint(0, 2), boundary=True)
+    for k, p in (("wrongelem", 0.4), ("stretch", 0.4), ("mirror", 0.3)):
+        if rng.random() < p:
+            add_decoy(rng, case, k, atol)
+    for _ in range(rng.randint(1, 2)):
+        for _try in range(4):
+            if add_ghost(rng, case, atol):
+                break
+    if not case["elems"]:
+        plant(rng, case, atol, ncopies=1)
+    case["info"]["boundary"] = "face"
+    return case
+
+
 def random_case(rng):
     """one structure of the random stream: findlib.planted_structure + extra decoys + hints + atol"""
     atol = rng.choice(ALL_ATOLS)
     boundary = rng.choice([None, None, "face", "corner"])
     pose = rng.choice([None, None, None, "identity", "axis90", "axis180"])
     pname = None
+    cell_kind = None
+    route = rng.choice(ROUTES + ["ase"]) if rng.random() < 0.4 else "elements"
+    if route == "ase" and rng.random() < 0.75:
+        # a periodic structure whose cell is not in the standard orientation
+        if atol > 0.3:
+            atol = 0.05
+        case = ase_case(rng, atol)
+        case["want_route"] = route
+        case["info"]["pose"] = "mixed"
+        return case, atol, valid_hints(rng, case["pattern"])
     if rng.random() < 0.12:
         # a close same-element pair relative to a LARGE tolerance, and a site with one atom where the pattern has two
         pname = rng.choice(sorted(CLOSE_PAIR))
         atol = rng.choice(CLOSE_PAIR[pname])
-    case = fl.planted_structure(rng, pname=pname, atol=atol, decoys=True, pose=pose, boundary=boundary,
+    case = fl.planted_structure(rng, pname=pname, cell_kind=cell_kind, atol=atol, decoys=True, pose=pose, boundary=boundary,
                                 ncopies=rng.randint(0, 2) if pname else None)
     case["decoys"] = decoy_groups(case)
+    case["want_route"] = route
     kinds = [("wrongelem", 0.5), ("mirror", 0.35), ("permuted", 0.25), ("stretch", 0.6), ("stretch", 0.3), ("merged", 0.15)]
     if pname:
         kinds = [("merged", 1.0), ("merged", 0.5)] + kinds
     for kind, p in kinds:
         if rng.random() < p:
             add_decoy(rng, case, kind, atol)
+    # copies that exist only under a mis-read cell (tilted / rotated cells; always when the structure comes from ASE)
+    for _ in range(2 if route == "ase" else 1):
+        if route == "ase" or rng.random() < 0.3:
+            add_ghost(rng, case, atol)
     case["info"]["boundary"] = boundary or "inside"
     case["info"]["pose"] = pose or "mixed"
     return case, atol, valid_hints(rng, case["pattern"])
@@ -277,6 +331,92 @@ def call_of(case, atol, hints=(None, None, None), positions=True, seed=0, **opts
     return c
 
 
+def edited_sequence(rng):
+    names = [n for n in fl.PATTERNS if len(fl.PATTERNS[n][0]) >= 2 and n != "int3"]
+    pn = rng.choice(names)
+    atol = rng.choice([0.02, 0.05, 0.05, 0.1])
+    ck = rng.choice(["ortho", "tri+", "tri-", "rot"])
+    d = fl.diam(fl.pattern_json(pn)["pos"])
+    while True:
+        cell = fl.make_cell(rng, ck, max(7.0, 2.2 * d + 3))
+        if wide_enough(cell, [pn], atol):
+            break
+    case = empty_case(pn, cell, ck)
+    plant(rng, case, atol, ncopies=rng.randint(1, 3), boundary=rng.random() < 0.5)
+    add_decoy(rng, case, "wrongelem", atol)
+    if not case["planted"]:
+        plant(rng, case, atol, ncopies=1)
+    if not case["planted"]:
+        return []
+    # explicit types on both objects, so that single atoms can be re-typed in place
+    stab = type_table(rng, case["elems"] + case["pattern"]["elems"])
+    ptab = type_table(rng, case["pattern"]["elems"] + case["elems"])
+    style = {"route": "types", "proute": "types", "type_table": stab, "ptype_table": ptab, "route_seed": 0}
+    elems = list(case["elems"])
+    pos = [list(q) for q in case["pos"]]
+    pel = list(case["pattern"]["elems"])
+    k = len(pel)
+    calls = []
+
+    def snap(edits):
+        c = dict(case, elems=list(elems), pos=[list(q) for q in pos],
+                 pattern=dict(case["pattern"], elems=list(pel)))
+        call = call_of(c, atol, (None, None, None), rng.random() < 0.8, rng.randrange(1 << 30), sobj=0, pobj=0, **style)
+        call["type_table"], call["ptype_table"] = list(stab), list(ptab)
+        call["edits"] = edits
+        return call
+
+    calls.append(snap([]))
+    for _ in range(rng.randint(1, 3)):
+        edits = []
+        what = rng.choice(["atom_type", "atom_type", "atom_type", "type_element", "position", "pattern_type", "restore"])
+        copy = rng.choice(case["planted"])
+        j = rng.randrange(k)
+        i = copy[j]
+        if what == "atom_type":
+            # one atom of a planted copy becomes another element (or a wrong-element decoy atom becomes right)
+            wrong = [a for a in range(len(elems)) if any(a in grp for kd, grp in case["decoys"] if kd == "wrongelem")]
+            if wrong and rng.random() < 0.3:
+                i = rng.choice(wrong)
+            new = rng.choice([e for e in stab if e != elems[i]])
+            elems[i] = new
+            edits.append({"target": "s", "kind": "atom_type", "i": i, "type": stab.index(new)})
+        elif what == "type_element":
+            # a whole type is renamed in the type table
+            t = stab.index(elems[i])
+            new = rng.choice([e for e in FOREIGN + JUNK + ["W", "Mo"] if e not in stab])
+            for a in range(len(elems)):
+                if elems[a] == stab[t]:
+                    elems[a] = new
+            stab[t] = new
+            edits.append({"target": "s", "kind": "type_element", "type": t, "element": new})
+        elif what == "position":
+            step = [rng.choice([-1, 1]) * rng.uniform(3, 6) * atol for _ in range(3)]
+            new = [pos[i][c] + step[c] for c in range(3)]
+            fr = np.array(new).dot(np.linalg.inv(np.array(case["cell"], dtype=float)))
+            if (fr >= 0).all() and (fr < 1).all():           # atoms stay inside the cell
+                pos[i] = new
+                edits.append({"target": "s", "kind": "position", "i": i, "pos": list(pos[i])})
+        elif what == "pattern_type":
+            new = rng.choice([e for e in ptab if e != pel[j]])
+            pel[j] = new
+            edits.append({"target": "p", "kind": "atom_type", "i": j, "type": ptab.index(new)})
+        else:
+            # put everything back the way it was generated
+            for a in range(len(elems)):
+                if elems[a] != case["elems"][a] and case["elems"][a] in stab:
+                    elems[a] = case["elems"][a]
+                    edits.append({"target": "s", "kind": "atom_type", "i": a, "type": stab.index(elems[a])})
+            for a in range(len(pos)):
+                if pos[a] != list(case["pos"][a]):
+                    pos[a] = list(case["pos"][a])
+                    edits.append({"target": "s", "kind": "position", "i": a, "pos": list(pos[a])})
+        calls.append(snap(edits))
+    for c in calls:
+        c["info"]["seq"] = "edited"
+    return calls
+
+
 def random_sequence(rng):
     """a list of calls to be made IN ORDER in one process, re-using the SAME Atoms objects where the inputs are the same
     (`sobj` / `pobj` = object keys). Kinds:
@@ -284,8 +424,13 @@ def random_sequence(rng):
                    s·tiny too long (inside the large tolerance, outside the tiny one)
       same-diag  : an orthorhombic cell, then a triclinic cell with the same diagonal, then the orthorhombic one again
       two-pats   : one structure holding copies of two patterns; pattern A, pattern B, pattern A
-      two-structs: one pattern object on structures of different size / cell kind"""
-    kind = rng.choice(["two-tols", "two-tols", "same-diag", "same-diag", "two-pats", "two-structs"])
+      two-structs: one pattern object on structures of different size / cell kind
+      edited     : ONE structure and ONE pattern object, edited IN PLACE between the searches (`structure.atom_types[i] = t`,
+                   `structure.atom_type_elements[k] = "X"`, `structure.positions[i] = …`, the same on the pattern); every
+                   search is judged against the objects as they are at that moment (ground truth kept by the generator)"""
+    kind = rng.choice(["two-tols", "two-tols", "same-diag", "same-diag", "two-pats", "two-structs", "edited", "edited", "edited"])
+    if kind == "edited":
+        return kind, edited_sequence(rng)
     names = [n for n in fl.PATTERNS if len(fl.PATTERNS[n][0]) >= 2]
     calls = []
     flag = lambda: rng.random() < 0.7
@@ -374,6 +519,183 @@ def crossings(case):
         f = np.array([case["pos"][i] for i in g]).dot(cinv)
         best = max(best, sum(1 for c in range(3) if f[:, c].max() - f[:, c].min() > 0.5))
     return best
+
+
+# ------------------------------------------------------------------ other public ways to obtain the Atoms objects
+
+ROUTES = ["types", "ase", "copy", "getitem"]      # besides the plain Atoms(elements=…, positions=…, cell=…)
+PROUTES = ["types", "ase", "copy"]
+JUNK = ["He", "Ne", "Ar", "Kr"]
+
+
+def type_table(rng, elems):
+    """a type table (unique elements, shuffled, with unused entries) for the explicit-types constructor"""
+    tab = sorted(set(elems) | set(rng.sample(FOREIGN + JUNK, 2)))
+    rng.shuffle(tab)
+    return tab
+
+
+def pick_routes(rng, case, route=None):
+    """how the structure / pattern objects are obtained: the same atoms through other public constructors"""
+    r = route or (rng.choice(ROUTES) if rng.random() < 0.4 else "elements")
+    pr = rng.choice(PROUTES) if rng.random() < 0.3 else "elements"
+    return {"route": r, "proute": pr, "type_table": type_table(rng, case["elems"]),
+            "ptype_table": type_table(rng, case["pattern"]["elems"]), "route_seed": rng.randrange(1 << 30)}
+
+
+def _atoms_via(route, elems, pos, cell, table, seed, integer=False):
+    """an Atoms object holding exactly these atoms (in this order), obtained through the named public route.
+    The caller's lists remain the ground truth; nothing is read back from the object."""
+    import random as _random
+    from mofun import Atoms
+    elems = list(elems)
+    dt = np.int64 if integer else float
+    P = np.array(pos, dtype=dt).reshape(len(elems), 3)
+    C = None if cell is None else np.array(cell, dtype=dt)
+    with core.quiet():
+        if route == "types":
+            tab = list(table) if table else sorted(set(elems))
+            return Atoms(atom_types=[tab.index(e) for e in elems], atom_type_elements=list(tab), atom_type_labels=list(tab),
+                         positions=P, cell=C)
+        if route == "ase":
+            import ase
+            if C is None:
+                return Atoms.from_ase_atoms(ase.Atoms(elems, positions=P))
+            return Atoms.from_ase_atoms(ase.Atoms(elems, positions=P, cell=C, pbc=True))
+        if route == "copy":
+            return Atoms(elements=elems, positions=P, cell=C).copy()
+        if route == "getitem":
+            # a larger object in another order, from which exactly these atoms are selected in this order
+            r = _random.Random(seed)
+            n = len(elems)
+            order = list(range(n))
+            r.shuffle(order)
+            junk = r.randint(0, 3)
+            big_e = [elems[i] for i in order] + [r.choice(JUNK) for _ in range(junk)]
+            big_p = [P[i] for i in order] + [[r.uniform(0, 3) for _ in range(3)] for _ in range(junk)]
+            big = Atoms(elements=big_e, positions=np.array(big_p, dtype=float), cell=C)
+            where = {a: k for k, a in enumerate(order)}
+            return big[[where[i] for i in range(n)]]
+        return Atoms(elements=elems, positions=P, cell=C)
+
+
+def build_structure(inp):
+    return _atoms_via(inp.get("route", "elements"), inp["elems"], inp["pos"], inp["cell"], inp.get("type_table"),
+                      inp.get("route_seed", 0), integer=inp.get("integer", False))
+
+
+def build_pattern(inp):
+    pat = inp["pattern"]
+    return _atoms_via(inp.get("proute", "elements"), pat["elems"], pat["pos"], None, inp.get("ptype_table"),
+                      inp.get("route_seed", 0) + 1, integer=inp.get("integer", False))
+
+
+def true_elements(a):
+    """per-atom elements straight from the stored types (never through an accessor)"""
+    return [a.atom_type_elements[int(t)] for t in a.atom_types]
+
+
+def apply_edit(obj, e):
+    """an IN-PLACE edit of an Atoms object between two searches (the arrays stay the same objects)"""
+    if e["kind"] == "atom_type":
+        obj.atom_types[e["i"]] = e["type"]
+    elif e["kind"] == "type_element":
+        obj.atom_type_elements[e["type"]] = e["element"]
+    elif e["kind"] == "position":
+        obj.positions[e["i"]] = np.array(e["pos"], dtype=float)
+    else:
+        raise ValueError(e["kind"])
+
+
+# ------------------------------------------------------------------ ghost copies under a MIS-READ cell
+
+def alt_lattices(cell):
+    """lattices a conversion could mistake the cell for: the same cell parameters in standard orientation (a along x, b in
+    the xy plane), and the transpose (rows taken for columns)"""
+    from ase.geometry import cellpar_to_cell, cell_to_cellpar
+    L = np.array(cell, dtype=float)
+    return {"std": np.array(cellpar_to_cell(cell_to_cellpar(L))), "transpose": L.T.copy()}
+
+
+def add_ghost(rng, case, atol, which=None):
+    """atoms that WOULD be a copy of the pattern across a cell face if the lattice were an alternative reading of the cell
+    (`alt_lattices`), but are not one under the true lattice (verified: some pattern distance is clearly not reproduced
+    by any periodic images). All atoms lie inside the true cell. A search working with a re-oriented / transposed cell
+    reports them, with positions that are not stored position + true lattice vector."""
+    pat = case["pattern"]
+    k = len(pat["elems"])
+    if k < 2:
+        return False
+    L = np.array(case["cell"], dtype=float)
+    which = which or rng.choice(["std", "std", "transpose"])
+    La = alt_lattices(L)[which]
+    if np.abs(La - L).max() < 0.75 or abs(np.linalg.det(La)) < 1e-6:
+        return False                       # the same lattice: the "ghost" would be a genuine copy
+    Li, Lai = np.linalg.inv(L), np.linalg.inv(La)
+    P = np.array(pat["pos"], dtype=float)
+    pd = np.linalg.norm(P[:, None, :] - P[None, :, :], axis=2)
+    offs = np.array([[i, j, l] for i in range(-2, 3) for j in range(-2, 3) for l in range(-2, 3)], dtype=float).dot(L)
+    ppos = [[Fraction(x).limit_denominator(10 ** 6) for x in p] for p in pat["pos"]]
+    for _ in range(80):
+        R = np.array([[float(v) for v in row] for row in fl.rotmat(fl.rat_quat(rng))])
+        f = [rng.random() for _ in range(3)]
+        f[rng.randrange(3)] = rng.choice([0.0, 0.01, 0.02, 0.98, 0.99, 0.999])
+        X = P.dot(R.T) + np.array(f).dot(La)
+        fa = X.dot(Lai)
+        if len({tuple(r) for r in np.floor(fa).astype(int).tolist()}) < 2:
+            continue                        # does not straddle a face of the alternative cell
+        W = (fa - np.floor(fa)).dot(La)     # wrapped into the ALTERNATIVE cell
+        ft = W.dot(Li)
+        if not ((ft >= 0).all() and (ft < 1).all()):
+            continue                        # must lie inside the TRUE cell as well
+        if not _far_enough(list(W), case["pos"], L, Li, 1.6):
+            continue
+        # clearly NOT a copy under the true lattice
+        worst = 0.0
+        for a in range(k):
+            for b in range(a):
+                d = np.linalg.norm(W[a] - W[b] + offs, axis=1)
+                worst = max(worst, np.abs(d - pd[a, b]).min())
+        if worst < 6 * atol + 0.5:
+            continue
+        base = len(case["pos"])
+        case["elems"].extend(pat["elems"])
+        case["pos"].extend([[float(x) for x in v] for v in W])
+        case["decoys"].append(("ghost", list(range(base, base + k))))
+        case["info"].setdefault("extra", []).append("ghost:" + which)
+        return True
+    return False
+
+
+# ------------------------------------------------------------------ integer-typed coordinates
+
+fl.PATTERNS.setdefault("int3", (["C", "O", "N"], [(0, 0, 0), (1, 0, 0), (0, 2, 0)]))
+
+
+def int_case(rng):
+    """every coordinate an integer, handed over as INTEGER arrays: integer orthorhombic cell, axis-aligned poses, copies
+    across faces, no perturbation"""
+    cell = [[rng.randint(7, 11), 0, 0], [0, rng.randint(7, 11), 0], [0, 0, rng.randint(7, 11)]]
+    case = empty_case("int3", cell, "ortho")
+    case["info"]["boundary"] = "int"
+    L = np.array(cell, dtype=float)
+    pat = fl.pattern_json("int3")
+    for _ in range(rng.randint(1, 3)):
+        for _try in range(20):
+            R = fl.rotmat(fl.rat_quat(rng, rng.choice(["identity", "axis90", "axis180"])))
+            o = [rng.choice([0, 0, 1, cell[c][c] - 1, rng.randrange(cell[c][c])]) for c in range(3)]
+            pts = [[int(fl.matvec(R, p)[c] + o[c]) % cell[c][c] for c in range(3)] for p in pat["pos"]]
+            if _far_enough([np.array(q, dtype=float) for q in pts], case["pos"], L, np.linalg.inv(L), 1.5):
+                base = len(case["pos"])
+                case["elems"].extend(pat["elems"])
+                case["pos"].extend([[float(x) for x in q] for q in pts])
+                case["planted"].append(list(range(base, base + 3)))
+                case["info"]["copies"] += 1
+                break
+    if rng.random() < 0.5:
+        add_decoy(rng, case, "wrongelem", 0.0)
+        case["pos"] = [[float(round(x)) for x in q] for q in case["pos"]]      # keep every coordinate an integer
+    return case, 0.05, (None, None, None)
 
 
 # ------------------------------------------------------------------ hints
